@@ -193,6 +193,58 @@ hm_buf(int a, const void * k, size_t kl, const void * p, size_t n, uint8_t * d)
 }
 
 /*
+ * Bystander: between two Update calls on the context under test the process
+ * uses the SAME algorithm through other objects - a second hash context and a
+ * second HMAC context that live across cases (fed a few bytes each time, so
+ * their block buffers sit at every fill level; finalised and restarted now and
+ * then) and one-shot hash / HMAC calls with a key longer than a block.
+ * Contexts are independent objects: the digest under test must not change.
+ */
+static uint64_t n_bystander;
+
+static void
+hash_bystander(int a)
+{
+	static union anyctx bh[3], bm[3];
+	static int live_h[3], live_m[3];
+	static uint8_t junk[150];
+	uint8_t d[32];
+	size_t n = (size_t)(n_bystander * 7 + 1) % 97;
+	size_t i;
+
+	if (junk[1] == 0)
+		for (i = 0; i < sizeof(junk); i++)
+			junk[i] = (uint8_t)(0xC3 + 5 * i);
+	if (!live_h[a]) {
+		h_init(a, &bh[a]);
+		live_h[a] = 1;
+	}
+	if (!live_m[a]) {
+		hm_init(a, &bm[a], junk, 20 + (size_t)(n_bystander % 100));
+		live_m[a] = 1;
+	}
+	h_update(a, &bh[a], junk, n);
+	hm_update(a, &bm[a], junk + 3, n);
+	switch (n_bystander % 5) {
+	case 1:
+		h_buf(a, junk, n + 50, d);
+		break;
+	case 2:
+		hm_buf(a, junk, 65 + n % 60, junk, n, d);
+		break;
+	case 3:
+		h_final(a, &bh[a], d);
+		live_h[a] = 0;
+		break;
+	case 4:
+		hm_final(a, &bm[a], d);
+		live_m[a] = 0;
+		break;
+	}
+	n_bystander++;
+}
+
+/*
  * One exact-size heap block that holds the input (ilen bytes) at offset aoff
  * and will receive olen output bytes at offset boff.
  */
@@ -302,6 +354,8 @@ main(void)
 						vh_die("parts exceed message");
 					h_update(a, c, mx + off, parts[i]);
 					off += parts[i];
+					if (i < 48)
+						hash_bystander(a);
 				}
 				if (off != mlen)
 					vh_die("parts do not cover message");
@@ -341,6 +395,8 @@ main(void)
 						vh_die("parts exceed message");
 					hm_update(a, c, mx + off, parts[i]);
 					off += parts[i];
+					if (i < 48)
+						hash_bystander(a);
 				}
 				if (off != mlen)
 					vh_die("parts do not cover message");
